@@ -29,26 +29,31 @@ type opaque struct{ id int }
 
 var objPool = []*opaque{{0}, {1}, {2}}
 
-func vNull() Val             { return Val{T: "N"} }
-func vInt(i int) Val         { return Val{T: "I", V: strconv.Itoa(i)} }
-func vLong(i int64) Val      { return Val{T: "L", V: strconv.FormatInt(i, 10)} }
-func vFloat(f float32) Val   { return Val{T: "F", V: strconv.FormatUint(uint64(math.Float32bits(f)), 16)} }
-func vDouble(f float64) Val  { return Val{T: "D", V: strconv.FormatUint(math.Float64bits(f), 16)} }
-func vStr(s string) Val      { return Val{T: "S", V: s} }
-func vBool(b bool) Val       { return Val{T: "B", V: map[bool]string{true: "t", false: "f"}[b]} }
+func vNull() Val        { return Val{T: "N"} }
+func vInt(i int) Val    { return Val{T: "I", V: strconv.Itoa(i)} }
+func vLong(i int64) Val { return Val{T: "L", V: strconv.FormatInt(i, 10)} }
+func vFloat(f float32) Val {
+	return Val{T: "F", V: strconv.FormatUint(uint64(math.Float32bits(f)), 16)}
+}
+func vDouble(f float64) Val     { return Val{T: "D", V: strconv.FormatUint(math.Float64bits(f), 16)} }
+func vStr(s string) Val         { return Val{T: "S", V: s} }
+func vBool(b bool) Val          { return Val{T: "B", V: map[bool]string{true: "t", false: "f"}[b]} }
 func vSpan(d time.Duration) Val { return Val{T: "P", V: strconv.FormatInt(int64(d), 10)} }
-func vArr(e ...Val) Val      { return Val{T: "A", E: append([]Val{}, e...)} }
-func vObj(i int) Val         { return Val{T: "O", V: strconv.Itoa(i)} }
+func vArr(e ...Val) Val         { return Val{T: "A", E: append([]Val{}, e...)} }
+func vObj(i int) Val            { return Val{T: "O", V: strconv.Itoa(i)} }
 func vTime(t time.Time) Val {
 	_, off := t.Zone()
 	return Val{T: "T", V: fmt.Sprintf("%d:%d:%d", t.Unix(), t.Nanosecond(), off)}
 }
 
-func (v Val) Int() int          { i, _ := strconv.Atoi(v.V); return i }
-func (v Val) Long() int64       { i, _ := strconv.ParseInt(v.V, 10, 64); return i }
-func (v Val) Float() float32    { u, _ := strconv.ParseUint(v.V, 16, 32); return math.Float32frombits(uint32(u)) }
-func (v Val) Double() float64   { u, _ := strconv.ParseUint(v.V, 16, 64); return math.Float64frombits(u) }
-func (v Val) Bool() bool        { return v.V == "t" }
+func (v Val) Int() int    { i, _ := strconv.Atoi(v.V); return i }
+func (v Val) Long() int64 { i, _ := strconv.ParseInt(v.V, 10, 64); return i }
+func (v Val) Float() float32 {
+	u, _ := strconv.ParseUint(v.V, 16, 32)
+	return math.Float32frombits(uint32(u))
+}
+func (v Val) Double() float64     { u, _ := strconv.ParseUint(v.V, 16, 64); return math.Float64frombits(u) }
+func (v Val) Bool() bool          { return v.V == "t" }
 func (v Val) Span() time.Duration { i, _ := strconv.ParseInt(v.V, 10, 64); return time.Duration(i) }
 func (v Val) Time() time.Time {
 	var s, n int64
